@@ -9,7 +9,7 @@ use std::{
     task::{Context, Poll, Waker},
 };
 
-use fn_graph::{FnGraph, FnRef, StreamOpts};
+use fn_graph::{FnGraph, FnRef};
 use futures::stream::{Stream, StreamExt};
 use interruptible::{InterruptSignal, InterruptibilityState, PollOutcome};
 use serde::{Deserialize, Serialize};
@@ -72,6 +72,8 @@ pub struct CCfg {
     pub base: CBase,
     pub budgets: Vec<u16>,
     pub budget_polls: u8,
+    #[serde(default)]
+    pub opts_order: u8,
 }
 
 impl CCfg {
@@ -88,11 +90,15 @@ impl CCfg {
             base: CBase::Eager,
             budgets: vec![],
             budget_polls: 0,
+            opts_order: 0,
         }
     }
 
     pub fn short(&self) -> String {
         let mut s = self.api.name().to_string();
+        if self.opts_order != 0 {
+            s += &format!(" opts-order={}", self.opts_order);
+        }
         if self.rev {
             s += " rev";
         }
@@ -194,12 +200,7 @@ fn run_c_inner<'g>(
         Strat::Finish => InterruptibilityState::new_finish_current((&mut irx).into()),
         Strat::NextN(k) => InterruptibilityState::new_poll_next_n((&mut irx).into(), k),
     };
-    let mut opts = StreamOpts::new()
-        .interruptibility_state(state)
-        .interrupted_next_item_include(cfg.include);
-    if cfg.rev {
-        opts = opts.rev();
-    }
+    let opts = crate::engine_s::build_opts(cfg.opts_order, state, cfg.include, cfg.rev);
     fn po<'a>(p: PollOutcome<FnRef<'a, Node>>) -> Item<'a> {
         match p {
             PollOutcome::NoInterrupt(r) => Item::NoInt(r),
